@@ -60,13 +60,13 @@ class AddNode(BasicAction):
         if pixels is None:
             if isinstance(pos_key, list):
                 # Multi-axis position keys
-                if not all(key in attributes for key in pos_key):
+                if not all(attributes.get(key) is not None for key in pos_key):
                     raise ValueError(
                         f"Must provide position or segmentation for node {node}"
                     )
             else:
                 # Single position key
-                if pos_key not in attributes:
+                if attributes.get(pos_key) is None:
                     raise ValueError(
                         f"Must provide position or segmentation for node {node}"
                     )
